@@ -210,6 +210,9 @@ pub fn generate(seed: u64, tier: &str, property: &str) -> RenderScenario {
         sc.targets.push(Target::Template { name: "zz_big.html".to_string() });
         sc.targets.push(Target::Template { name: "zz_big.txt".to_string() });
         sc.targets.push(Target::Str { source: body, autoescape: seed % 2 == 0 });
+        // (fault points are sampled in both tiers here: one faulted render of 150 KB costs
+        // milliseconds, and the exhaustive tier would spend most of its time on these runs)
+        sc.faults = FaultSpec::Sample { n: 48, seed: seed ^ 0x5EED_B16 };
     }
     // deeply nested context data (decided from the seed itself, no draw: everything else about
     // the scenario is what it would have been). C07's batch only: "with any context".
